@@ -113,13 +113,38 @@ DELEGATE_FUNCS = {"tree_to_dotfile"}
 #: builtins that may receive the subject without reading its structure
 HARMLESS_BUILTINS = {"isinstance", "id", "type"}
 #: builtins that consume a live view completely and return a detached value
-MATERIALIZERS = {"list", "tuple", "set", "frozenset", "sorted", "dict", "len", "bool", "sum", "any", "all", "str", "repr"}
+MATERIALIZERS = {"list", "tuple", "set", "frozenset", "sorted", "dict", "len", "bool", "sum", "any", "all", "str", "repr",
+                 "isinstance", "id", "type", "hash", "int", "float"}
+#: methods (of anything) whose RESULT is a freshly built, detached value even when the receiver is live
+#: (trusted like STRUCTURAL: Node.to_dict builds a new nested dict eagerly)
+DETACHING_METHODS = {"to_dict"}
+#: methods that consume their (live) arguments synchronously and keep no reference to them
+#: (trusted: Node._add_from copies the source branch node by node into the receiver's tree)
+NON_RETAINING_METHODS = {"_add_from"}
 MAX_PATHS = 32
 
 
+# LIVE VALUES.  `expr` answers whether the value of an expression may be a LIVE VIEW of the node structure: the
+# structure itself (a child list, a node), or something LAZY that will read it when consumed (the generator returned
+# by to_list_iter()/to_dot()/iterator(), a generator expression, map()/filter()/zip()/chain() of one, ...).  A live
+# value must not survive the `with` block unobserved:
+#   * every STORE of a live value taints the name it can be reached from afterwards - a plain name, the elements of a
+#     tuple/list target, a walrus target, and for `x.a = v`, `x[k] = v`, `x[k].a += v` the base name `x`; a method
+#     call `x.m(.., v, ..)` on a non-live receiver (append, update, setdefault, ...) taints `x` as well, and the
+#     result of ANY call that receives a live argument is live unless the callee is a known materialiser (list, tuple,
+#     dict, "".join, ... or a comprehension evaluated on the spot).  Each later use of a tainted name is a Read, so a
+#     view consumed after the block shows up as a Read after the Rel and the skeleton is not bracketed;
+#   * stores that cannot be followed are refused: through the tree object itself (`self.x = v`), into an object that
+#     is not reachable from a local name, `global`/`nonlocal`;
+#   * `return <live>` inside `with subject:` is refused (the caller would consume it after the release), so is any
+#     `yield`/`await` in a snapshot operation (a suspended generator would keep, or lazily take, the lock).
+# Taint is flow-sensitive in program order (it grows along the walk; branches join by union, loop bodies are walked
+# twice); closures (lambda, nested def) are refused if they mention a name that is tainted ANYWHERE in the function.
 def lock_skeleton(fn: ast.FunctionDef, subject: str):
     """All control-flow paths of a snapshot operation as event lists (see above)."""
     tainted: set[str] = set()
+    ever: set[str] = set()          # every name tainted anywhere in the function (first, collecting, walk)
+    state = {"collecting": True, "depth": 0}
 
     def bad(msg, n=None):
         raise Unsupported(f"lock skeleton of {fn.name}: {msg} (line {getattr(n, 'lineno', '?')})")
@@ -132,12 +157,53 @@ def lock_skeleton(fn: ast.FunctionDef, subject: str):
                 and not n.args and not n.keywords)
 
     def mentions_subject(n):
-        return any(isinstance(x, ast.Name) and (x.id == subject or x.id in tainted) for x in ast.walk(n))
+        return any(isinstance(x, ast.Name) and (x.id == subject or x.id in tainted or x.id in ever) for x in ast.walk(n))
+
+    def base_of(n):
+        while isinstance(n, (ast.Attribute, ast.Subscript, ast.Starred)):
+            n = n.value
+        return n
 
     def taint(target):
         for x in ast.walk(target):
             if isinstance(x, ast.Name):
                 tainted.add(x.id)
+
+    def taint_holder(obj, what, n):
+        """A live value was put into `obj` (store target / receiver of a retaining call)."""
+        b = base_of(obj)
+        if is_subject(b) or is_super_call(b):
+            bad(f"{what}: a live view is stored through the tree object itself", n)
+        if isinstance(b, ast.Name):
+            tainted.add(b.id)
+        else:
+            bad(f"{what}: a live view is stored into an object that cannot be followed", n)
+
+    def store(tg, live, pre, n):
+        if isinstance(tg, ast.Name):
+            if tg.id == subject:
+                bad(f"{subject} is rebound", n)
+            if live:
+                tainted.add(tg.id)
+            return
+        if isinstance(tg, (ast.Tuple, ast.List)):
+            for e in tg.elts:
+                store(e, live, pre, n)
+            return
+        if isinstance(tg, ast.Starred):
+            store(tg.value, live, pre, n)
+            return
+        if isinstance(tg, (ast.Attribute, ast.Subscript)):
+            b = base_of(tg)
+            if is_subject(b) or is_super_call(b):
+                bad(f"store through the tree object ({ast.unparse(tg)} = ...)", n)
+            for c in ast.iter_child_nodes(tg):      # receiver and index are evaluated (reads, if they are live)
+                if isinstance(c, ast.expr):
+                    expr(c, pre)
+            if live:
+                taint_holder(tg, f"{ast.unparse(tg)} = <live view>", n)
+            return
+        bad(f"assignment target {type(tg).__name__} not understood", n)
 
     def subject_member(attr, n, ev, *, call):
         if attr in ("__enter__", "__exit__"):
@@ -154,16 +220,19 @@ def lock_skeleton(fn: ast.FunctionDef, subject: str):
             return False
         bad(f"unknown attribute/method {attr} of {subject}", n)
 
-    def args_of(call, ev):
+    def args_of(call, ev) -> bool:
+        """Events of the arguments; True iff some argument is live."""
+        live = False
         for a in call.args:
             if not is_subject(a):
-                expr(a.value if isinstance(a, ast.Starred) else a, ev)
+                live = expr(a.value if isinstance(a, ast.Starred) else a, ev) or live
         for k in call.keywords:
             if not is_subject(k.value):
-                expr(k.value, ev)
+                live = expr(k.value, ev) or live
+        return live
 
     def expr(n, ev) -> bool:
-        """Append the events of evaluating n; True iff the value is a live view of the structure."""
+        """Append the events of evaluating n; True iff the value may be a live view of the structure."""
         if n is None:
             return False
         if isinstance(n, ast.Name):
@@ -173,6 +242,12 @@ def lock_skeleton(fn: ast.FunctionDef, subject: str):
                 ev.append("R")
                 return True
             return False
+        if isinstance(n, (ast.Yield, ast.YieldFrom, ast.Await)):
+            bad("yield/await in a snapshot operation (a suspended generator keeps, or lazily takes, the lock)", n)
+        if isinstance(n, ast.NamedExpr):
+            live = expr(n.value, ev)
+            store(n.target, live, ev, n)
+            return live
         if isinstance(n, ast.Attribute):
             if is_subject(n.value) or is_super_call(n.value):
                 if n.attr == "_lock":
@@ -202,13 +277,26 @@ def lock_skeleton(fn: ast.FunctionDef, subject: str):
                     return False
                 bad(f"{subject} passed to unknown callee", n)
             live_f = expr(f, ev)
-            args_of(n, ev)
+            arg_live = args_of(n, ev)
             if isinstance(f, ast.Name) and f.id in MATERIALIZERS:
                 return False
-            return live_f  # a method of a live object returns a live value; f(live) a detached one
+            if isinstance(f, ast.Attribute):
+                if f.attr in DETACHING_METHODS:
+                    return False
+                if f.attr == "join" and isinstance(f.value, (ast.Constant, ast.JoinedStr)):
+                    return False                      # "sep".join(view) consumes the view
+                if f.attr in NON_RETAINING_METHODS:
+                    return live_f
+                if arg_live and not live_f:
+                    # receiver.m(.., <live>, ..): the receiver may keep it (append, update, setdefault, ...)
+                    taint_holder(f.value, f"{ast.unparse(f)}(<live view>)", n)
+            # a method of a live object returns a live value; so does anything that was handed a live value
+            # (map, filter, zip, iter, enumerate, itertools.*, a wrapper class ...) unless it is a materialiser
+            return live_f or arg_live
         if isinstance(n, ast.FormattedValue) and is_subject(n.value):
             return False  # repr(tree) shows class and name only
         if isinstance(n, (ast.ListComp, ast.SetComp, ast.DictComp, ast.GeneratorExp)):
+            lazy = False
             for g in n.generators:
                 if is_subject(g.iter):
                     ev.append("R")
@@ -217,12 +305,13 @@ def lock_skeleton(fn: ast.FunctionDef, subject: str):
                     live = expr(g.iter, ev)
                 if live:
                     taint(g.target)
+                    lazy = True
                 for c in g.ifs:
                     expr(c, ev)
             for part in ([n.key, n.value] if isinstance(n, ast.DictComp) else [n.elt]):
                 expr(part, ev)
-            return isinstance(n, ast.GeneratorExp) and any(
-                is_subject(g.iter) or mentions_subject(g.iter) for g in n.generators)
+            # a generator expression is evaluated when it is consumed: live if anything in it touches the structure
+            return isinstance(n, ast.GeneratorExp) and (lazy or mentions_subject(n))
         if isinstance(n, ast.Lambda):
             if mentions_subject(n):
                 bad("lambda closes over the tree or a live view", n)
@@ -233,6 +322,7 @@ def lock_skeleton(fn: ast.FunctionDef, subject: str):
                 if isinstance(c, ast.expr):
                     expr(c, ev)
             return False
+        # containers, subscripts, arithmetic, conditional expressions, starred ...: live if a part is live
         live = False
         for c in ast.iter_child_nodes(n):
             if isinstance(c, ast.expr):
@@ -274,11 +364,17 @@ def lock_skeleton(fn: ast.FunctionDef, subject: str):
             if any(is_subject(it.context_expr) for it in s.items):
                 if len(s.items) != 1 or s.items[0].optional_vars is not None:
                     bad(f"`with {subject}` combined with other items or `as`", s)
-                return [(["A"] + e + ["L"], t) for e, t in block(s.body)]
+                state["depth"] += 1
+                try:
+                    inner = block(s.body)
+                finally:
+                    state["depth"] -= 1
+                return [(["A"] + e + ["L"], t) for e, t in inner]
             pre = []
             for it in s.items:
-                if expr(it.context_expr, pre) and it.optional_vars is not None:
-                    taint(it.optional_vars)
+                live = expr(it.context_expr, pre)
+                if it.optional_vars is not None:
+                    store(it.optional_vars, live, pre, s)
             return [(pre + e, t) for e, t in block(s.body)]
         if isinstance(s, (ast.For, ast.While)):
             pre = []
@@ -288,10 +384,10 @@ def lock_skeleton(fn: ast.FunctionDef, subject: str):
                     live = True
                 else:
                     live = expr(s.iter, pre)
-                if live:
-                    taint(s.target)
+                store(s.target, live, pre, s)
             else:
                 expr(s.test, pre)
+            block(s.body)          # first walk: what the body taints is visible at the top of the next iteration
             return [(pre + flat_reads_only(block(s.body) + block(s.orelse), "a loop", s), False)]
         if isinstance(s, ast.If):
             pre = []
@@ -300,7 +396,15 @@ def lock_skeleton(fn: ast.FunctionDef, subject: str):
             if all(not e and not t for e, t in alts):
                 return [(pre, False)]
             return dedupe([(pre + e, t) for e, t in alts])
-        if isinstance(s, (ast.Return, ast.Raise)):
+        if isinstance(s, ast.Return):
+            pre = []
+            live = expr(s.value, pre)
+            if live and state["depth"] > 0 and not state["collecting"]:
+                bad("`return` of a live (possibly lazy) view of the tree from inside `with "
+                    f"{subject}:` - it would be consumed after the release; materialise it (list(...), tuple(...), "
+                    "dict(...), a comprehension)", s)
+            return [(pre, True)]
+        if isinstance(s, ast.Raise):
             pre = []
             for c in ast.iter_child_nodes(s):
                 if isinstance(c, ast.expr):
@@ -317,18 +421,23 @@ def lock_skeleton(fn: ast.FunctionDef, subject: str):
             return [([], False)]
         if isinstance(s, ast.Expr) and isinstance(s.value, ast.Constant):
             return [([], False)]  # docstring
-        if isinstance(s, (ast.Assign, ast.AugAssign, ast.AnnAssign)):
+        if isinstance(s, (ast.Assign, ast.AnnAssign)):
             pre = []
             live = expr(s.value, pre) if s.value is not None else False
             for tg in (s.targets if isinstance(s, ast.Assign) else [s.target]):
-                if isinstance(tg, (ast.Name, ast.Tuple, ast.List)):
-                    if live:
-                        taint(tg)
-                else:
-                    expr(tg, pre)
+                store(tg, live, pre, s)
             return [(pre, False)]
+        if isinstance(s, ast.AugAssign):
+            pre = []
+            live = expr(s.value, pre)
+            store(s.target, live, pre, s)
+            if isinstance(s.target, ast.Name) and s.target.id in tainted:
+                pre.append("R")                      # x += ... reads x
+            return [(pre, False)]
+        if isinstance(s, (ast.Global, ast.Nonlocal)):
+            bad("global/nonlocal in a snapshot operation (stores cannot be followed)", s)
         if isinstance(s, (ast.Expr, ast.Assert, ast.Delete, ast.Pass, ast.Break, ast.Continue, ast.Import,
-                          ast.ImportFrom, ast.Global, ast.Nonlocal)):
+                          ast.ImportFrom)):
             pre = []
             for c in ast.iter_child_nodes(s):
                 if isinstance(c, ast.expr):
@@ -344,8 +453,14 @@ def lock_skeleton(fn: ast.FunctionDef, subject: str):
             out.append(e)
         return out
 
-    block(fn.body)            # first pass: collect the live names (taint is flow-insensitive)
-    paths = block(fn.body)    # second pass with the complete set
+    # first walks: collect every name that is tainted anywhere (for the closure checks); twice, so that a taint
+    # made late in the function is seen by an earlier closure as well
+    block(fn.body)
+    block(fn.body)
+    ever.update(tainted)
+    tainted.clear()
+    state["collecting"] = False
+    paths = block(fn.body)    # the walk that counts: taint grows in program order
     return dedupe([collapse(e) for e, _ in paths])
 
 
@@ -1412,6 +1527,226 @@ def sec_nav(m):
     return lines
 
 
+def sec_misc(m):
+    """Facts for the parts of harness/parts_misc.py: the deleted tag and the attribute assignments of Tree._unregister
+    (REMOVED, host C01); the keyword pass-through of Tree.print (PRINT, host C16); mermaid.DEFAULT_DIRECTION and the
+    defaults of the four flowchart signatures (host C17)."""
+    lines = []
+    tree, node, typed = m["tree"], m["node"], m["typed"]
+    lines.append(f"Definition DELETED_TAG : list Z := {text(const_str(module_assign(tree, '_DELETED_TAG')))}.")
+    tcls = class_def(tree, "Tree")
+    unreg = func_def(tcls, "_unregister")
+    kwd = {a.arg: d for a, d in zip(unreg.args.kwonlyargs, unreg.args.kw_defaults)}
+    if set(kwd) != {"clear"} or not (isinstance(kwd["clear"], ast.Constant) and isinstance(kwd["clear"].value, bool)):
+        raise Unsupported("Tree._unregister: expected exactly the keyword-only parameter clear=<bool>")
+    lines.append(f"Definition UNREGISTER_CLEAR_DEFAULT : bool := {'true' if kwd['clear'].value else 'false'}.")
+
+    def slot_assigns(stmts):
+        out = []
+        for st in stmts:
+            if isinstance(st, ast.Assign) and len(st.targets) == 1 and isinstance(st.targets[0], ast.Attribute) \
+                    and isinstance(st.targets[0].value, ast.Name) and st.targets[0].value.id == "node":
+                v = st.value
+                if isinstance(v, ast.Constant) and v.value is None:
+                    out.append((st.targets[0].attr, "None"))
+                elif isinstance(v, ast.Name) and v.id == "_DELETED_TAG":
+                    out.append((st.targets[0].attr, "TAG"))
+                else:
+                    raise Unsupported(f"Tree._unregister: unexpected value assigned to node.{st.targets[0].attr}")
+        return out
+
+    always = slot_assigns(unreg.body)
+    ifs = [st for st in unreg.body if isinstance(st, ast.If) and isinstance(st.test, ast.Name) and st.test.id == "clear"]
+    if len(ifs) != 1 or ifs[0].orelse:
+        raise Unsupported("Tree._unregister: expected exactly one `if clear:` without else")
+    cond = slot_assigns(ifs[0].body)
+
+    def pairs(ps):
+        return "[" + "; ".join(f"({text(a)}, {text(b)})" for a, b in ps) + "]"
+
+    lines.append(f"Definition UNREGISTER_ALWAYS : list (list Z * list Z) := {pairs(always)}.")
+    lines.append(f"Definition UNREGISTER_IF_CLEAR : list (list Z * list Z) := {pairs(cond)}.")
+    # every call of _unregister in the package: how many, and how many pass clear=
+    calls = with_clear = 0
+    for mod in (tree, node, typed):
+        for n in ast.walk(mod):
+            if isinstance(n, ast.Call):
+                f = n.func
+                nm = f.attr if isinstance(f, ast.Attribute) else f.id if isinstance(f, ast.Name) else None
+                if nm == "_unregister":
+                    calls += 1
+                    if any(k.arg == "clear" or k.arg is None for k in n.keywords) or len(n.args) > 1:
+                        with_clear += 1
+    lines.append(f"Definition UNREGISTER_CALLS : Z := {calls}%Z.")
+    lines.append(f"Definition UNREGISTER_CALLS_PASSING_CLEAR : Z := {with_clear}%Z.")
+
+    # the names the normal attribute lookup finds on a Node / TypedNode (part FORWARD: these are never forwarded to the data object)
+    def class_names(cls):
+        out = []
+        for st in cls.body:
+            if isinstance(st, (ast.FunctionDef, ast.AsyncFunctionDef)):
+                out.append(st.name)
+            elif isinstance(st, ast.Assign):
+                for tg in st.targets:
+                    if isinstance(tg, ast.Name):
+                        if tg.id == "__slots__":
+                            if not (isinstance(st.value, ast.Tuple) and all(isinstance(e, ast.Constant) and isinstance(e.value, str) for e in st.value.elts)):
+                                raise Unsupported(f"{cls.name}.__slots__ is not a tuple of str literals")
+                            out.extend(e.value for e in st.value.elts)
+                        else:
+                            out.append(tg.id)
+        seen = []
+        for n in out:
+            if n not in seen:
+                seen.append(n)
+        return seen
+
+    ncls = class_def(node, "Node")
+    tncls = class_def(typed, "TypedNode")
+    if [b.id for b in tncls.bases if isinstance(b, ast.Name)] != ["Node"]:
+        raise Unsupported("TypedNode: expected the single base class Node")
+    nn = class_names(ncls)
+    lines.append("Definition NODE_ATTR_NAMES : list (list Z) := [" + "; ".join(text(n) for n in nn) + "].")
+    lines.append("Definition TYPED_NODE_EXTRA_ATTR_NAMES : list (list Z) := [" + "; ".join(text(n) for n in class_names(tncls) if n not in nn) + "].")
+    return lines
+
+
+def kwdefaults(fn):
+    out = []
+    for a, d in zip(fn.args.kwonlyargs, fn.args.kw_defaults):
+        if d is None:
+            continue        # a required keyword-only parameter
+        if isinstance(d, ast.Constant) and d.value is None:
+            out.append((a.arg, "None"))
+        elif isinstance(d, ast.Constant) and isinstance(d.value, bool):
+            out.append((a.arg, "True" if d.value else "False"))
+        elif isinstance(d, ast.Constant) and isinstance(d.value, str):
+            out.append((a.arg, repr(d.value)))
+        elif isinstance(d, ast.Name):
+            out.append((a.arg, d.id))
+        else:
+            raise Unsupported(f"{fn.name}: unsupported default of {a.arg}")
+    return out
+
+
+
+def sec_misc_print(m):
+    """Tree.print (part PRINT, host C16): the keyword pass-through to format() and the defaults; the two default
+    rendering templates"""
+    lines = []
+    tcls = class_def(m["tree"], "Tree")
+    lines.append(f"Definition NODE_DEFAULT_RENDER_REPR : list Z := {text(const_str(class_assign(class_def(m['node'], 'Node'), 'DEFAULT_RENDER_REPR')))}.")
+    lines.append(f"Definition TYPED_DEFAULT_RENDER_REPR : list Z := {text(const_str(class_assign(class_def(m['typed'], 'TypedNode'), 'DEFAULT_RENDER_REPR')))}.")
+
+    def pairs(ps):
+        return "[" + "; ".join(f"({text(a)}, {text(b)})" for a, b in ps) + "]"
+
+    # Tree.print: exactly `print(self.format(k=k ...), file=file)`; the keyword-only parameters and their defaults
+    pr = func_def(tcls, "print")
+    fm = func_def(tcls, "format")
+
+    body = [st for st in pr.body if not (isinstance(st, ast.Expr) and isinstance(st.value, ast.Constant))]
+    ok = (len(body) == 1 and isinstance(body[0], ast.Expr) and isinstance(body[0].value, ast.Call)
+          and isinstance(body[0].value.func, ast.Name) and body[0].value.func.id == "print")
+    if not ok:
+        raise Unsupported("Tree.print: expected a single print(...) call")
+    call = body[0].value
+    if len(call.args) != 1 or not (isinstance(call.args[0], ast.Call) and isinstance(call.args[0].func, ast.Attribute)
+                                   and call.args[0].func.attr == "format" and isinstance(call.args[0].func.value, ast.Name)
+                                   and call.args[0].func.value.id == "self" and not call.args[0].args):
+        raise Unsupported("Tree.print: expected print(self.format(...), ...)")
+
+    def passed(c):
+        out = []
+        for k in c.keywords:
+            if k.arg is None or not isinstance(k.value, ast.Name):
+                raise Unsupported("Tree.print: expected keyword=name arguments")
+            out.append((k.arg, k.value.id))
+        return out
+
+    lines.append(f"Definition PRINT_KWONLY : list (list Z * list Z) := {pairs(kwdefaults(pr))}.")
+    lines.append(f"Definition FORMAT_KWONLY : list (list Z * list Z) := {pairs(kwdefaults(fm))}.")
+    lines.append(f"Definition PRINT_TO_FORMAT : list (list Z * list Z) := {pairs(passed(call.args[0]))}.")
+    lines.append(f"Definition PRINT_TO_PRINT : list (list Z * list Z) := {pairs(passed(call))}.")
+
+    return lines
+
+
+def sec_misc_mermaid(m):
+    """mermaid.DEFAULT_DIRECTION and the defaults of the four flowchart signatures (host C17)"""
+    lines = []
+    tree, node, mermaid = m["tree"], m["node"], m["mermaid"]
+    tcls = class_def(tree, "Tree")
+
+    def pairs(ps):
+        return "[" + "; ".join(f"({text(a)}, {text(b)})" for a, b in ps) + "]"
+
+    # mermaid
+    lines.append(f"Definition MERMAID_DEFAULT_DIRECTION : list Z := {text(const_str(module_assign(mermaid, 'DEFAULT_DIRECTION')))}.")
+    sigs = [func_def(mermaid, "_node_to_mermaid_flowchart_iter"), func_def(mermaid, "node_to_mermaid_flowchart"),
+            func_def(class_def(node, "Node"), "to_mermaid_flowchart"), func_def(tcls, "to_mermaid_flowchart")]
+    ds = []
+    for fn in sigs:
+        d = dict(kwdefaults(fn))
+        if "direction" not in d:
+            raise Unsupported(f"{fn.name}: no keyword-only parameter `direction`")
+        ds.append(d)
+    lines.append("Definition MERMAID_DIRECTION_DEFAULTS : list (list Z) := [" + "; ".join(text(ast.literal_eval(d["direction"]) if d["direction"][:1] in "'\"" else d["direction"]) for d in ds) + "].")
+    for nm, d in (("MERMAID_NODE_DEFAULTS", ds[2]), ("MERMAID_TREE_DEFAULTS", ds[3])):
+        lines.append(f"Definition {nm} : list (list Z * list Z) := {pairs(sorted(d.items()))}.")
+    return lines
+
+
+def sec_misc_common(m):
+    """common.py / tree.py odds and ends (part COMMONMISC, host C14): the exception hierarchy, MIN_PYTHON_VERSION_INFO,
+    the comparison and the slice of check_python_version"""
+    lines = []
+    common, tree = m["common"], m["tree"]
+    bases = []
+    for node in common.body:
+        if isinstance(node, ast.ClassDef) and node.name.endswith("Error"):
+            if len(node.bases) != 1 or not isinstance(node.bases[0], ast.Name):
+                raise Unsupported(f"class {node.name}: expected exactly one named base class")
+            bases.append((node.name, node.bases[0].id))
+    lines.append("Definition ERROR_BASES : list (list Z * list Z) := [" + "; ".join(f"({text(a)}, {text(b)})" for a, b in bases) + "].")
+    mv = module_assign(tree, "MIN_PYTHON_VERSION_INFO")
+    if not (isinstance(mv, ast.Tuple) and all(isinstance(e, ast.Constant) and isinstance(e.value, int) for e in mv.elts)):
+        raise Unsupported("MIN_PYTHON_VERSION_INFO is not a tuple of int literals")
+    lines.append("Definition MIN_PYTHON_VERSION_INFO : list Z := [" + "; ".join(f"{e.value}%Z" for e in mv.elts) + "].")
+    # check_python_version: `if sys.version_info < min_version:` ... `min_version[:3]` ... return False / return True
+    fn = func_def(common, "check_python_version")
+    ifs = [st for st in fn.body if isinstance(st, ast.If)]
+    if len(ifs) != 1 or ifs[0].orelse:
+        raise Unsupported("check_python_version: expected one `if` without else")
+    t = ifs[0].test
+    ok = (isinstance(t, ast.Compare) and len(t.ops) == 1 and isinstance(t.left, ast.Attribute) and t.left.attr == "version_info"
+          and isinstance(t.comparators[0], ast.Name) and t.comparators[0].id == fn.args.args[0].arg)
+    if not ok:
+        raise Unsupported("check_python_version: expected `sys.version_info <op> min_version`")
+    op = {ast.Lt: "<", ast.LtE: "<=", ast.Gt: ">", ast.GtE: ">="}.get(type(t.ops[0]))
+    if op is None:
+        raise Unsupported("check_python_version: unsupported comparison")
+    lines.append(f"Definition VERSION_CHECK_OP : list Z := {text(op)}.")
+
+    def ret_const(stmts):
+        r = [st for st in stmts if isinstance(st, ast.Return)]
+        if len(r) != 1 or not (isinstance(r[0].value, ast.Constant) and isinstance(r[0].value.value, bool)):
+            raise Unsupported("check_python_version: expected `return <bool literal>`")
+        return r[0].value.value
+    lines.append(f"Definition VERSION_CHECK_RETURNS : list bool := [{'true' if ret_const(ifs[0].body) else 'false'}; {'true' if ret_const(fn.body) else 'false'}].")
+    sl = [n for n in ast.walk(ifs[0]) if isinstance(n, ast.Subscript) and isinstance(n.slice, ast.Slice)]
+    if len(sl) != 1 or sl[0].slice.lower is not None or not (isinstance(sl[0].slice.upper, ast.Constant) and isinstance(sl[0].slice.upper.value, int)):
+        raise Unsupported("check_python_version: expected one slice [:k]")
+    lines.append(f"Definition VERSION_CHECK_SLICE : Z := {sl[0].slice.upper.value}%Z.")
+    # check_python_version(MIN_PYTHON_VERSION_INFO) is called at import of tree.py
+    calls = [n for n in tree.body if isinstance(n, ast.Expr) and isinstance(n.value, ast.Call) and isinstance(n.value.func, ast.Name)
+             and n.value.func.id == "check_python_version"]
+    arg_ok = len(calls) == 1 and len(calls[0].value.args) == 1 and isinstance(calls[0].value.args[0], ast.Name) \
+        and calls[0].value.args[0].id == "MIN_PYTHON_VERSION_INFO"
+    lines.append(f"Definition VERSION_CHECKED_AT_IMPORT : bool := {'true' if arg_ok else 'false'}.")
+    return lines
+
+
 # section name -> (function, source files it reads, properties whose obligations use it)
 SECTIONS = [
     ("CONNECTORS", sec_connectors, ["common", "tree"]),
@@ -1428,6 +1763,10 @@ SECTIONS = [
     ("LOCK", sec_lock, ["tree", "typed", "fs", "dot", "node"]),
     ("NAV", sec_nav, ["node"]),
     ("NAVT", sec_navt, ["typed"]),
+    ("MISC", sec_misc, ["tree", "node", "typed"]),
+    ("MISCPRINT", sec_misc_print, ["tree", "node", "typed"]),
+    ("MISCMERMAID", sec_misc_mermaid, ["tree", "node", "mermaid"]),
+    ("MISCCOMMON", sec_misc_common, ["common", "tree"]),
 ]
 FILES = dict(common="common.py", tree="tree.py", typed="typed_tree.py", fs="fs.py", diff="diff.py", mermaid="mermaid.py",
              dot="dot.py", init="__init__.py", node="node.py")
